@@ -6,15 +6,23 @@
 set -u
 PATCH="$(realpath "$1")"; PROP="$2"; GROUPS="${3:-}"; RUNS="${4:-}"
 VERIF="$(cd "$(dirname "$0")/.." && pwd)"
-if ! git -C /repo diff --quiet; then echo "refusing: /repo has uncommitted changes"; exit 3; fi
-git -C /repo apply "$PATCH" || { echo "patch does not apply"; exit 3; }
 BDIR="/tmp/vsim_mut_$$"
+if [ -n "${MUT_WORKTREE:-}" ]; then
+  # concurrency-safe variant: the change is applied to a scratch worktree of /repo's HEAD, not to /repo itself
+  WT="/tmp/vsim_mutwt_$$"
+  git -C /repo worktree add -q --detach "$WT" HEAD || exit 3
+  git -C "$WT" apply "$PATCH" || { echo "patch does not apply"; git -C /repo worktree remove --force "$WT"; exit 3; }
+  export MANIF_REPO="$WT"
+else
+  if ! git -C /repo diff --quiet; then echo "refusing: /repo has uncommitted changes"; exit 3; fi
+  git -C /repo apply "$PATCH" || { echo "patch does not apply"; exit 3; }
+fi
 export VERIF_BUILD_DIR="$BDIR"
 [ -n "$GROUPS" ] && export VS_GROUPS="$GROUPS"
 [ -n "$RUNS" ] && export VERIF_RUNS="$RUNS"
 export VERIF_NO_EVIDENCE=1
 "$VERIF/bin/check" "$PROP" quick
 RC=$?
-git -C /repo checkout -- .
+if [ -n "${MUT_WORKTREE:-}" ]; then git -C /repo worktree remove --force "$WT"; else git -C /repo checkout -- .; fi
 rm -rf "$BDIR"
 exit $RC
